@@ -30,6 +30,7 @@ type LCase struct {
 	Files    map[string]string `json:"files"`     // absolute path -> content
 	Faults   map[string]string `json:"faults"`    // absolute path -> errno on open
 	MaxDepth int               `json:"max_depth"` // import depth limit
+	Hostlike int               `json:"hostlike_imports,omitempty"`
 }
 
 type lfile struct {
@@ -52,6 +53,11 @@ func GenLCase(seed uint64) *LCase {
 	in := func(p string) string { return path.Join(c.Root, p) }
 	// inside files, at different depths
 	inside := []string{"main.sysl", "lib/a.sysl", "lib/deep/b.sysl", "lib/deep/er/c.sysl", "x.sysl"}
+	if r.Chance(0.4) {
+		// a directory inside the root whose name looks like a host: joined with two more
+		// segments, a plain relative path looks like a remote resource to the reader
+		inside = append(inside, "api.v1/team/svc/m.sysl", "api.v1/team/svc/n.sysl", "api.v1/team/o.sysl")
+	}
 	outside := []string{"/secret/s.sysl", "/w/other/o.sysl", "/w/s.sysl", "/o.sysl", "/etc/e.sysl", "/projx/p.sysl", "/w/projx/p.sysl",
 		"/Proj/p.sysl", "/w/Proj/p.sysl", "/W/proj/p.sysl", "/w/a.b/Proj/p.sysl"} // incl. case variants of the roots
 	var files []*lfile
@@ -81,6 +87,7 @@ func GenLCase(seed uint64) *LCase {
 			siblings = append(siblings, f) // prefix siblings and case variants of the root
 		}
 	}
+	hostlike := 0
 	for k := 0; k < r.Range(1, 6); k++ {
 		from := files[r.Intn(nIn)]
 		if r.Chance(0.5) {
@@ -91,8 +98,13 @@ func GenLCase(seed uint64) *LCase {
 			to = siblings[r.Intn(len(siblings))]
 		}
 		sp := spellTo(r, c.Root, from.abs, to.abs)
-		if sp == "" || isRemote(sp) || isRemote(strings.TrimPrefix(sp, "/")) {
+		if sp == "" {
 			continue
+		}
+		if isRemote(sp) || isRemote(strings.TrimPrefix(sp, "/")) {
+			// a local import that looks like host/owner/repo/file: sysl's own rule is that only a
+			// leading // is remote, and its listener guards such names with ./ before reading
+			hostlike++
 		}
 		from.imports = append(from.imports, sp)
 	}
@@ -148,6 +160,7 @@ func GenLCase(seed uint64) *LCase {
 	if r.Chance(0.2) {
 		c.MaxDepth = r.Range(1, 3)
 	}
+	c.Hostlike = hostlike
 	return c
 }
 
@@ -353,6 +366,9 @@ func RunLCaseExec(c *LCase, cnt core.Counters, exec Exec, allow []string) (*LRes
 	}
 	if exp.escaping {
 		cnt.Inc("probe_escape_attempted_through_import_or_module")
+	}
+	if c.Hostlike > 0 {
+		cnt.Inc("probe_local_import_that_looks_like_a_host")
 	}
 	return res, vs
 }
